@@ -244,6 +244,9 @@ func runC03(env *Env, tier string) {
 			}
 		}
 		b := 1 + ch.Choose("b", last+3)
+		if ch.Chance("beginzero", 1, 20) {
+			b = 0 // no message carries number 0: the coverage can only begin at 1
+		}
 		var e int
 		switch ch.Weighted("e", []int{4, 3, 2, 1, 1, 1}) {
 		case 0:
@@ -292,6 +295,9 @@ func runC03(env *Env, tier string) {
 			return "app"
 		}
 		pos := b
+		if pos < 1 {
+			pos = 1
+		}
 		sawApp, sawFill := false, false
 		for _, x := range r {
 			if b > end {
